@@ -37,6 +37,7 @@ def build_session(rng, sid, cfgdir, pid, nev, cfg=None, secack=None):
             fn, sa, i = g.rand_command(rng, s); s.hl(fn, sa, i)
         elif k == "tick": s.tick(rng.choice([1, 2, 3]))
         else: s.flush()
+        if pid in ("C08", "C07") and rng.random() < 0.1: s.lists()      # trains-on-track list = derived availability
         if pid == "C17" and rng.random() < 0.15 and len(holds) < 6: holds.append(s.hold())
         if pid == "C17" and holds and rng.random() < 0.15: s.held(rng.choice(holds))
     s.flush()
@@ -47,6 +48,30 @@ def build_session(rng, sid, cfgdir, pid, nev, cfg=None, secack=None):
         for k in holds: s.held(k)
         for k in holds: s.release(k)               # each result is freed exactly once (ASan / LSan watch)
     return s.end()
+
+def de_bruijn2(k):
+    """indices 0..k-1 in an order in which every ordered pair (including (i, i)) is adjacent exactly once (cyclically);
+    the first element is repeated at the end"""
+    if k == 0: return []
+    a = [0] * 3; out = []
+    def db(t, p):
+        if t > 2:
+            if 2 % p == 0: out.extend(a[1:p + 1])
+        else:
+            a[t] = a[t - p]; db(t + 1, p)
+            for j in range(a[t - p] + 1, k):
+                a[t] = j; db(t + 1, t)
+    db(1, 1)
+    return out + out[:1]
+
+OCC = (0xa0, 0xa1, 0xa2, 0xa3, 0xa4, 0xa6, 0xa7, 0xac)
+PAIR_FAMILY = {
+    # quick: the family the property is about; thorough: every uplink element (commands: every command)
+    "C07": lambda h, th: h["e"] == "up" and h["ty"] not in (0x89, 0x8a, 0x8b, 0x8c, 0x8d, 0x8e) and (th or h["ty"] in OCC + (0xb0, 0xb2, 0xc0, 0xe1, 0xe2)),
+    "C08": lambda h, th: h["e"] == "up" and (h["ty"] in (0xa0, 0xa1, 0xa2, 0xa3) or (th and h["ty"] in OCC + (0xe1, 0xe5))),
+    "C19": lambda h, th: h["e"] == "up" and h["ty"] in OCC,
+    "C09": lambda h, th: h["e"] == "hl" and (th or h["fn"] in ("bidib_set_train_peripheral", "bidib_emergency_stop_train", "bidib_switch_point", "bidib_set_signal", "bidib_set_peripheral")),
+}
 
 def classify(ev):
     if ev["e"] == "up": return ("up", ev["ty"], bool(ev.get("w")), len(ev.get("qm", [])), len(ev.get("qe", [])), len(ev.get("qi", [])))
@@ -88,6 +113,23 @@ def _run(ctx, pid, thorough, rng, exe, tmp):
                 if h["e"] == "up": s.up(h["n"], h["ty"], h["d"])
                 else: s.hl(h["fn"], [x if x != "" else None for x in h["s"]], h["i"])
             s.flush(); sessions.append(s.end())
+    # pair coverage: every ORDERED PAIR of elements of (a family of) the model's alphabet occurs adjacently in some session
+    # (a de Bruijn sequence of order 2 over the family) - what the second event does may depend on what the first left
+    # behind (addresses on a free segment, the same decoders with another orientation, the other functions of a group).
+    # Node-table notices are left out (they change who is connected; C15 owns them).
+    fam = PAIR_FAMILY.get(pid)
+    if fam:
+        sel = [h for h in sorted(alpha, key=lambda h: json.dumps(h, sort_keys=True)) if fam(h, thorough)]
+        seq = de_bruijn2(len(sel)); ctx.cov["pair_alphabet"] = len(sel); ctx.cov["ordered_pairs_replayed"] = len(sel) ** 2
+        L = 160
+        for ci in range(0, len(seq), L):
+            part = seq[max(ci - 1, 0):ci + L]                     # one element of overlap: no pair is lost at a cut
+            sp = g.Session("pair%d" % (ci // L), track_mc.MC_CFG, os.path.join(tmp, "pair%d" % ci), paths=dict(track_mc.MC_PATHS), full=True)
+            for k in part:
+                h = sel[k]
+                if h["e"] == "up": sp.up(h["n"], h["ty"], h["d"])
+                else: sp.hl(h["fn"], [x if x != "" else None for x in h["s"]], h["i"])
+            sp.flush(); sessions.append(sp.end())
     # every message type code once, from a connected board (C06: destination is a function of type and content)
     if pid in ("C06", "C12") or thorough:
         for mode in (0, 1):
